@@ -16,6 +16,16 @@ func RunC10(r *sim.Run) {
 	t := r.T
 	w := NewWorld(r, defaultOpts())
 	defer w.Stop()
+	if strings.Contains(r.Profile, "preempt") {
+		// the controller's own goroutines give up the processor inside a sync, at
+		// statements of the controller: whatever else is runnable (a second queue
+		// worker, if there were one; informer handlers) runs in between
+		w.Sc.SeedPreemption(uint64(t.Draw(1 << 30)))
+		w.Sc.PreemptSites = func(site string) bool {
+			return strings.HasPrefix(site, "upstream_controller.go") || strings.HasPrefix(site, "clusterinfo.go")
+		}
+		defer func() { r.ProbeN("preemptions_inside_controller_code", w.Sc.Preempts) }()
+	}
 	names := []string{"alpha", "beta", "one", "gamma"}[:t.Range(2, 4)]
 	pool := []string{"One", "one", "Two.Example", "two.example", "alpha", "Shared", "shared", "BETA"}
 	certs := map[string]*certSet{}
